@@ -185,6 +185,13 @@ def swap (u v : Mpz) : Mpz × Mpz := (v, u)
 
 /-! ### mpz_mul_2exp — mpz/mul_2exp.c -/
 
+/-- mul_2exp.c:49-62: the limbs stored from `wp + limb_cnt` upwards (`c = cnt % 64`). -/
+def mul_2exp_hi (up : List Nat) (c : Nat) : List Nat :=
+  if c != 0 then
+    let r := lshift up c                                      -- mul_2exp.c:52
+    if r.2 != 0 then r.1 ++ [r.2] else r.1                    -- mul_2exp.c:53-57
+  else up                                                     -- mul_2exp.c:61
+
 def mul_2exp (w u : Mpz) (cnt : Nat) : Mpz :=
   let usize := u.size
   let abs_usize := usize.natAbs
@@ -192,12 +199,7 @@ def mul_2exp (w u : Mpz) (cnt : Nat) : Mpz :=
   else
     let limb_cnt := cnt / 64                                  -- mul_2exp.c:41
     let w1 := grow w (abs_usize + limb_cnt + 1)               -- mul_2exp.c:42-44
-    let c := cnt % 64                                         -- mul_2exp.c:49
-    let hi :=
-      if c != 0 then
-        let r := lshift u.d c                                 -- mul_2exp.c:52
-        if r.2 != 0 then r.1 ++ [r.2] else r.1                -- mul_2exp.c:53-57
-      else u.d                                                -- mul_2exp.c:61
+    let hi := mul_2exp_hi u.d (cnt % 64)                      -- mul_2exp.c:49-62
     let wd := List.replicate limb_cnt 0 ++ hi                 -- mul_2exp.c:66
     { alloc := w1.alloc, size := sgn (usize < 0) wd.length, d := wd }        -- mul_2exp.c:68
 
@@ -282,6 +284,64 @@ def mul_1c (src : List Nat) (n cin : Nat) : List Nat × Nat :=
   let a := add_1 r.1 cin
   (a.1, (r.2 + a.2) % B)
 
+/-- aorsmul_i.c:100-131, "addmul of absolute values": `wp`, `xp` are the magnitudes (wsize, xsize
+    limbs).  Returns (new size, significant limbs). -/
+def aorsmul_1_add (wp xp : List Nat) (y : Nat) : Nat × List Nat :=
+  let wsize := wp.length
+  let xsize := xp.length
+  let new_wsize := max wsize xsize                            -- aorsmul_i.c:92
+  let min_size := min wsize xsize                             -- aorsmul_i.c:96
+  let r := addmul_1 (wp.take min_size) (xp.take min_size) y   -- aorsmul_i.c:102
+  -- aorsmul_i.c:106-127
+  let hi : List Nat × Nat :=
+    if xsize != wsize then
+      let m : List Nat × Nat :=
+        if xsize > wsize then mul_1 (xp.drop min_size) y      -- aorsmul_i.c:120
+        else (wp.drop min_size, 0)                            -- aorsmul_i.c:123-124
+      let a := add_1 m.1 r.2                                  -- aorsmul_i.c:126
+      (a.1, (m.2 + a.2) % B)
+    else ([], r.2)
+  let n := new_wsize + (if hi.2 != 0 then 1 else 0)           -- aorsmul_i.c:130-131
+  (n, (r.1 ++ hi.1 ++ [hi.2]).take n)
+
+/-- aorsmul_i.c:137-154 + 185, "submul of absolute values" when wsize ≥ xsize: propagate the borrow
+    through w; on a borrow out take the two's complement and flip the sign.
+    Returns (sign flipped, normalised limbs). -/
+def aorsmul_1_sub_ge (wp xp : List Nat) (y : Nat) : Bool × List Nat :=
+  let wsize := wp.length
+  let xsize := xp.length
+  let r := submul_1 (wp.take xsize) xp y                      -- aorsmul_i.c:137 (min_size = xsize)
+  let hi : List Nat × Nat :=
+    if wsize != xsize then sub_1 (wp.drop xsize) r.2          -- aorsmul_i.c:141-142
+    else ([], r.2)
+  let buf := r.1 ++ hi.1
+  let cy := hi.2
+  if cy != 0 then                                             -- aorsmul_i.c:144
+    let top := B - 1 - (B - cy) % B                           -- aorsmul_i.c:148  ~-cy
+    let buf1 := com_n buf ++ [top]                            -- aorsmul_i.c:149  mpn_not (wp, new_wsize)
+    let buf2 := (incr buf1).1                                 -- aorsmul_i.c:150-151  MPN_INCR_U
+    (true, normalize buf2)                                    -- aorsmul_i.c:152, 185
+  else (false, normalize buf)                                 -- aorsmul_i.c:185
+
+/-- aorsmul_i.c:155-181 + 185, "submul of absolute values" when wsize < xsize: want x*y - w; submul
+    has given w - x*y on the low limbs, so two's complement those and `mul_1c` the rest.
+    Returns the normalised limbs (the sign always flips). -/
+def aorsmul_1_sub_lt (wp xp : List Nat) (y : Nat) : List Nat :=
+  let wsize := wp.length
+  let xsize := xp.length
+  let r := submul_1 wp (xp.take wsize) y                      -- aorsmul_i.c:137 (min_size = wsize)
+  let lo0 := com_n r.1                                        -- aorsmul_i.c:163
+  let a := add_1 lo0 1                                        -- aorsmul_i.c:164
+  let cy := (r.2 + a.2) % B
+  let cy := (cy + B - 1) % B                                  -- aorsmul_i.c:165
+  let cy2 := if cy == B - 1 then 1 else 0                     -- aorsmul_i.c:169
+  let cy := (cy + cy2) % B                                    -- aorsmul_i.c:170
+  let m := mul_1c (xp.drop wsize) y cy                        -- aorsmul_i.c:171
+  let n := xsize + (if m.2 != 0 then 1 else 0)                -- aorsmul_i.c:172-173
+  let hi := (m.1 ++ [m.2]).take (n - wsize)
+  let hi := if cy2 != 0 then (decr hi).1 else hi              -- aorsmul_i.c:177-178  MPN_DECR_U
+  normalize (a.1 ++ hi)                                       -- aorsmul_i.c:185
+
 /-- `sub` = "sub < 0" (only the sign bit of the C variable is ever used; `sub ^= s` flips it when
     `s < 0`).  `y < B`. -/
 def aorsmul_1 (w x : Mpz) (y : Nat) (sub : Bool) : Mpz :=
@@ -301,57 +361,16 @@ def aorsmul_1 (w x : Mpz) (y : Nat) (sub : Bool) : Mpz :=
       let wsize := wsize_signed.natAbs                        -- aorsmul_i.c:90
       let new_wsize := max wsize xsize                        -- aorsmul_i.c:92
       let w1 := grow w (new_wsize + 1)                        -- aorsmul_i.c:93
-      let wp := w.d
-      let xp := x.d
-      let min_size := min wsize xsize                         -- aorsmul_i.c:96
-      if !sub then
-        -- addmul of absolute values
-        let r := addmul_1 (wp.take min_size) (xp.take min_size) y            -- aorsmul_i.c:102
-        -- aorsmul_i.c:106-127
-        let hi : List Nat × Nat :=
-          if xsize != wsize then
-            let m : List Nat × Nat :=
-              if xsize > wsize then mul_1 (xp.drop min_size) y               -- aorsmul_i.c:120
-              else (wp.drop min_size, 0)                                     -- aorsmul_i.c:123-124
-            let a := add_1 m.1 r.2                                           -- aorsmul_i.c:126
-            (a.1, (m.2 + a.2) % B)
-          else ([], r.2)
-        let n := new_wsize + (if hi.2 != 0 then 1 else 0)     -- aorsmul_i.c:130-131
-        { alloc := w1.alloc, size := sgn (wsize_signed < 0) n, d := (r.1 ++ hi.1 ++ [hi.2]).take n }
+      let wneg := decide (wsize_signed < 0)
+      if !sub then                                            -- aorsmul_i.c:98
+        let r := aorsmul_1_add w.d x.d y
+        { alloc := w1.alloc, size := sgn wneg r.1, d := r.2 }                -- aorsmul_i.c:188
+      else if wsize ≥ xsize then                              -- aorsmul_i.c:138
+        let r := aorsmul_1_sub_ge w.d x.d y
+        { alloc := w1.alloc, size := sgn (wneg != r.1) r.2.length, d := r.2 }   -- aorsmul_i.c:152,188
       else
-        -- submul of absolute values
-        let r := submul_1 (wp.take min_size) (xp.take min_size) y            -- aorsmul_i.c:137
-        if wsize ≥ xsize then                                 -- aorsmul_i.c:138
-          -- propagate the borrow through the rest of w
-          let hi : List Nat × Nat :=
-            if wsize != xsize then sub_1 (wp.drop xsize) r.2  -- aorsmul_i.c:141-142
-            else ([], r.2)
-          let buf := r.1 ++ hi.1
-          let cy := hi.2
-          if cy != 0 then                                     -- aorsmul_i.c:144
-            -- borrow out of w: two's complement negate, flip the sign
-            let top := B - 1 - (B - cy) % B                   -- aorsmul_i.c:148  ~-cy
-            let buf1 := com_n buf ++ [top]                    -- aorsmul_i.c:149  mpn_not (wp, new_wsize)
-            let buf2 := (incr buf1).1                         -- aorsmul_i.c:150-151  MPN_INCR_U
-            let wd := normalize buf2                          -- aorsmul_i.c:185
-            { alloc := w1.alloc, size := sgn (!decide (wsize_signed < 0)) wd.length, d := wd }
-          else
-            let wd := normalize buf                           -- aorsmul_i.c:185
-            { alloc := w1.alloc, size := sgn (wsize_signed < 0) wd.length, d := wd }
-        else
-          -- x bigger than w: want x*y - w; submul gave w - x*y on the low limbs
-          let lo0 := com_n r.1                                -- aorsmul_i.c:163
-          let a := add_1 lo0 1                                -- aorsmul_i.c:164
-          let cy := (r.2 + a.2) % B
-          let cy := (cy + B - 1) % B                          -- aorsmul_i.c:165
-          let cy2 := if cy == B - 1 then 1 else 0             -- aorsmul_i.c:169
-          let cy := (cy + cy2) % B                            -- aorsmul_i.c:170
-          let m := mul_1c (xp.drop wsize) y cy                -- aorsmul_i.c:171
-          let n := new_wsize + (if m.2 != 0 then 1 else 0)    -- aorsmul_i.c:172-173
-          let hi := (m.1 ++ [m.2]).take (n - wsize)
-          let hi := if cy2 != 0 then (decr hi).1 else hi      -- aorsmul_i.c:177-178  MPN_DECR_U
-          let wd := normalize (a.1 ++ hi)                     -- aorsmul_i.c:185
-          { alloc := w1.alloc, size := sgn (!decide (wsize_signed < 0)) wd.length, d := wd }   -- :180,188
+        let d := aorsmul_1_sub_lt w.d x.d y
+        { alloc := w1.alloc, size := sgn (!wneg) d.length, d := d }          -- aorsmul_i.c:180,188
 
 def addmul_ui (w x : Mpz) (y : Nat) : Mpz := aorsmul_1 w x y false         -- aorsmul_i.c:219
 def submul_ui (w x : Mpz) (y : Nat) : Mpz := aorsmul_1 w x y true          -- aorsmul_i.c:247
